@@ -5,8 +5,8 @@ from ..interp_prop import InterpProp
 
 class C04(InterpProp):
     id = 'C04'
-    quick_cases = 200
-    thorough_cases = 4000
+    quick_cases = 1000
+    thorough_cases = 40000
     n_ops = 30
     rule = ('random well-formed charts with many weakly guarded transitions on few events (same state under '
             'compound / orthogonal parent / root, different regions staying inside or leaving, nested orthogonals) '
